@@ -97,6 +97,14 @@ Theorem bam_header_durable :
 Proof. exact bam_header_durable_gen. Qed.
 Print Assumptions bam_header_durable.
 
+(** The script of that theorem is the one the source runs: after writeHeader,
+    bam.NewWriterLevel calls Flush and then Wait on its BGZF writer, both
+    unconditionally and nothing else (skeleton regenerated from bam/writer.go
+    on every run; a Wait that has become conditional, or is gone, fails here). *)
+Theorem bam_newwriter_runs_flush_wait : bam_NewWriterLevel_bg_calls = [1; 2].
+Proof. reflexivity. Qed.
+Print Assumptions bam_newwriter_runs_flush_wait.
+
 Example c12_faulty_run :
   let dfl := fun (_ : Z) (d : list Z) => d ++ [0; 0] in
   let st := run_conc dfl (fun _ => 0) bgzf_wr_patch_mode bgzf_wr_patch_guard bgzf_wr_overflow_check 6 default_hdr
